@@ -17,8 +17,16 @@ pub fn max_single_since_mark() -> usize {
     MAX_SINGLE.with(|m| m.get())
 }
 
+/// A single request of this size (64 GiB) cannot be satisfied on the machines the checks run on
+/// and is never legitimate for the code under test: the process would abort. It is reported as a
+/// violation (with a replay file) instead.
+const ABSURD: usize = 1 << 36;
+
 #[inline]
 fn note(sz: usize) {
+    if sz >= ABSURD {
+        simcore::runner::emergency_violation("absurd-allocation-requested", &format!("a single allocation of {sz} bytes was requested (peer-controlled size fields must not size allocations)"));
+    }
     let _ = MAX_SINGLE.try_with(|m| {
         if sz > m.get() {
             m.set(sz)
